@@ -47,7 +47,26 @@ Fixpoint all_hits_spec (amp hon : list Z) (rs : list rec) (k : Z) (hs : list hit
                                all_hits_spec amp hon rest (k + 1) h2
   end.
 
+(* a record the hit finder accepts, with a positive threshold *)
+Definition rec_ok (amp hon : list Z) (r : rec) : Prop :=
+  0 <= r_ch r < zlen amp /\ r_ch r < zlen hon /\
+  0 <= r_length r <= zlen (r_data r) /\ 0 < threshold amp hon r.
+
+(* the per-channel arrays find_hits hands to _find_hits *)
+Definition n_channels_of (rs : list rec) (amp hon : targ) : Z :=
+  match amp, hon with
+  | PerCh a, _ => zlen a
+  | _, PerCh h => zlen h
+  | _, _ => max_channel rs + 1
+  end.
+Definition targ_array (t : targ) (n : Z) : list Z :=
+  match t with PerCh a => a | Scalar v => bcast v n end.
+
 (* ---------- record links ---------- *)
+(* channels are non-negative; a continuing fragment never sits at time 0 (see
+   C18_record_links_time0_refuted for what happens otherwise) *)
+Definition rec_wf (r : rec) : Prop := 0 <= r_ch r /\ (r_reci r <> 0 -> r_time r <> 0).
+
 Definition rec_at (rs : list rec) (i : Z) : rec :=
   nth (Z.to_nat i) rs (mkrec 0 0 0 0 0 0 0 0 0 0 0 []).
 
@@ -74,3 +93,8 @@ Definition keepsb (rs : list rec) (spr : Z) (prev next : list Z) (le re : Z) (h 
   ((j =? ri) && (s <? r_length (rec_at rs ri)) && (h_left h - le <=? s) && (s <? h_right h + re)) ||
   ((j =? nthZ prev ri) && negb (j =? NO_RECORD_LINK) && (h_left h - le <=? s - spr)) ||
   ((j =? nthZ next ri) && negb (j =? NO_RECORD_LINK) && (s + spr <? h_right h + re)).
+
+(* a hit that lies in a record of the array *)
+Definition hit_ok (rs : list rec) (spr : Z) (h : hit) : Prop :=
+  0 <= h_reci h < zlen rs /\ 0 <= h_left h <= h_right h /\ h_left h <= spr /\
+  0 <= r_length (rec_at rs (h_reci h)).
